@@ -714,28 +714,31 @@ impl PartialEq for Value {
                                     need_length_fallback = false;
                                 }
                                 let mut a_count = 0;
-                                if !a.try_iter_pairs().is_some_and(|mut ak| {
-                                    ak.all(|(k, v1)| {
-                                        a_count += 1;
-                                        b.get_value(&k) == Some(v1)
-                                    })
+                                let Some(mut ak) = a.try_iter_pairs() else {
+                                    // objects that cannot be enumerated are compared like
+                                    // plain objects, as `Ord` does.
+                                    return b.try_iter().is_none() && a.to_string() == b.to_string();
+                                };
+                                if !ak.all(|(k, v1)| {
+                                    a_count += 1;
+                                    b.get_value(&k) == Some(v1)
                                 }) {
                                     return false;
                                 }
                                 if !need_length_fallback {
                                     true
                                 } else {
-                                    a_count == b.try_iter().map_or(0, |x| x.count())
+                                    b.try_iter().is_some_and(|x| a_count == x.count())
                                 }
                             }
                             (
                                 ObjectRepr::Seq | ObjectRepr::Iterable,
                                 ObjectRepr::Seq | ObjectRepr::Iterable,
                             ) => {
-                                if let (Some(ak), Some(bk)) = (a.try_iter(), b.try_iter()) {
-                                    ak.eq(bk)
-                                } else {
-                                    false
+                                match (a.try_iter(), b.try_iter()) {
+                                    (Some(ak), Some(bk)) => ak.eq(bk),
+                                    (None, None) => a.to_string() == b.to_string(),
+                                    _ => false,
                                 }
                             }
                             // terrible fallback for plain objects
@@ -922,7 +925,12 @@ impl Ord for Value {
                                 // ordering so we just accept this for now.
                                 match (a.try_iter_pairs(), b.try_iter_pairs()) {
                                     (Some(a), Some(b)) => a.cmp(b),
-                                    _ => unreachable!(),
+                                    // objects that cannot be enumerated (the default of the
+                                    // `Object` trait) sort before the ones that can and among
+                                    // themselves like plain objects.
+                                    (None, None) => a.to_string().cmp(&b.to_string()),
+                                    (None, Some(_)) => Ordering::Less,
+                                    (Some(_), None) => Ordering::Greater,
                                 }
                             }
                             (
@@ -930,7 +938,9 @@ impl Ord for Value {
                                 ObjectRepr::Seq | ObjectRepr::Iterable,
                             ) => match (a.try_iter(), b.try_iter()) {
                                 (Some(a), Some(b)) => a.cmp(b),
-                                _ => unreachable!(),
+                                (None, None) => a.to_string().cmp(&b.to_string()),
+                                (None, Some(_)) => Ordering::Less,
+                                (Some(_), None) => Ordering::Greater,
                             },
                             // terrible fallback for plain objects
                             (ObjectRepr::Plain, ObjectRepr::Plain) => {
